@@ -323,10 +323,16 @@ def r05_7(ctx, run, rule='R05.7'):
     for k, v in exp_bin.items():
         got = binary.get(k)
         d = 'binary[' + ','.join(f'{a}:{b:#x}' for a, b in k) + ']'
+        if got is None:
+            run.undecided(rule, b.path, d, f'expected "{v}"; no return path for this header / entry kind was recognised (dispatched through a helper or a table?): not decided', f'{b.file}:{b.line}')
+            continue
         (run.proved if got == v else run.violation)(rule, b.path, d, f'-> "{v}"' if got == v else f'expected "{v}", found {got!r}', f'{b.file}:{b.line}')
     exp_text = {ord('n'): 'null', ord('t'): 'boolean', ord('f'): 'boolean', ord('"'): 'string', ord('['): 'array', ord('{'): 'object', ord('-'): 'number'}
     for k, v in exp_text.items():
         got = text.get(k)
+        if got is None:
+            run.undecided(rule, b.path, f'text[{chr(k)!r}]', f'expected "{v}"; no return path for this first byte was recognised: not decided', f'{b.file}:{b.line}')
+            continue
         (run.proved if got == v else run.violation)(rule, b.path, f'text[{chr(k)!r}]', f'-> "{v}"' if got == v else f'expected "{v}", found {got!r}', f'{b.file}:{b.line}')
 
 
